@@ -13,8 +13,9 @@ RULE = ('Hypothesis-generated SimNet programs: worlds over {byte-stream, message
         'either side; payload (data, metadata) lengths 0,1,2,.. around k*budget and up to 70000 bytes; stream/channel '
         'sources: StreamFromGenerator, StreamFromAsyncGenerator with awaits, manual publisher (one per tick / bursts), '
         'response futures resolved at once, late or by an operation; delivery pumped or manual with generated chunks; '
-        'sender drain blocked for generated stretches; no cancels, errors or faults; heal phase grants credit and runs '
-        'to quiescence. Oracle (reference model = the program): for every interaction the sequence of payloads '
+        'sender drain blocked for generated stretches; manual publishers may end by failing right after their last '
+        'element (everything handed before the failure is owed to the consumer); no cancels or faults; heal phase '
+        'grants credit and runs to quiescence. Oracle (reference model = the program): for every interaction the sequence of payloads '
         'observed at the peer callback equals the sequence handed in, byte for byte, exactly once, nothing foreign '
         '(every byte pattern encodes interaction, direction and index). Non-trivial = >= 2 interactions overlapping in '
         'time and (a payload of >= 2 fragments or a read buffer smaller than a frame); distinct = program hash.')
@@ -46,11 +47,13 @@ def programs(draw):
             spec['resp'] = {'mode': draw(st.sampled_from(['now', 'manual', 'late'])), 'delay': draw(st.integers(1, 30)),
                             'p': draw(gen.nonempty_lens(fr_resp, 5, big=big))}
         if k in ('st', 'ch'):
-            spec['src'] = draw(st.one_of(gen.manual_src(fr_resp, ends=('flag', 'sep'), max_frags=4),
+            # 'error': the producer fails after its elements; everything handed before the failure is still owed
+            spec['src'] = draw(st.one_of(gen.manual_src(fr_resp, ends=('flag', 'sep', 'error'), max_frags=4),
+                                         gen.manual_src(fr_resp, ends=('flag', 'sep', 'error'), max_frags=4),
                                          gen.lib_src(fr_resp), gen.lib_src(fr_resp)))
             spec['sub'] = draw(gen.sub_spec())
         if k == 'ch':
-            spec['rsrc'] = draw(st.one_of(st.none(), gen.manual_src(fr_req, ends=('flag', 'sep'), max_frags=4),
+            spec['rsrc'] = draw(st.one_of(st.none(), gen.manual_src(fr_req, ends=('flag', 'sep', 'error'), max_frags=4),
                                           gen.lib_src(fr_req)))
             spec['rsub'] = draw(st.one_of(st.none(), gen.sub_spec(), gen.sub_spec(), gen.sub_spec()))
             if draw(st.integers(0, 5)) == 0:
@@ -73,9 +76,21 @@ def programs(draw):
         st.tuples(st.just('deliver'), st.sampled_from(['c', 's']), st.one_of(st.none(), st.integers(1, 200))),
         st.tuples(st.just('regime'), st.sampled_from(['pumped', 'manual'])),
     )
-    body = [list(o) for o in draw(st.lists(op, min_size=2, max_size=30))]
+    # burst: everything a manual publisher has, and its ending, handed over in one go (no loop iteration in between)
+    burst = st.tuples(st.integers(0, 7), st.sampled_from(['resp', 'resp', 'req'])).map(
+        lambda t: [('emit', t[0], t[1], 5), ('end', t[0], t[1])])
+    chunks = draw(st.lists(st.one_of(op.map(lambda o: [o]), op.map(lambda o: [o]), op.map(lambda o: [o]), burst),
+                           min_size=2, max_size=30))
+    body = [list(o) for ch in chunks for o in ch]
     ops.extend(body)
     ops.extend([['start']] * max(0, n - sum(1 for o in ops if o[0] == 'start')))
+    manual = [(i, d) for i, sp in enumerate(inter) for d, key in (('resp', 'src'), ('req', 'rsrc'))
+              if (sp.get(key) or {}).get('kind') == 'manual' and sp[key]['els']]
+    if manual and draw(st.booleans()):
+        # late bursts: the remaining elements of some manual publishers and their ending in one loop iteration
+        ops.append(['tick', draw(st.integers(1, 4))])
+        for i, d in draw(st.lists(st.sampled_from(manual), min_size=1, max_size=3, unique=True)):
+            ops.extend([['emit', i, d, 5], ['end', i, d]])
     return {'cfg': cfg, 'inter': inter, 'ops': ops}
 
 
@@ -111,7 +126,17 @@ def prop(program):
     ov = overlap(tr)
     info['nt'] = ov and (multi or split)
     kinds = sorted(set(i['k'] for i in program['inter'][:len(tr.scn.started)]))
-    info['classes'] = ['framing=' + ('message' if program['cfg']['msg'] else 'bytes'),
+    burst_err = False
+    last_hand = {}
+    for e in tr.world.log:
+        if e['ev'] == 'hand':
+            last_hand[(e['uid'], e['dir'])] = e
+        elif e['ev'] == 'hand_end' and e.get('how') == 'error':
+            h = last_hand.get((e['uid'], e['dir']))
+            if h is not None and e['seq'] - h['seq'] <= 2 and len(h['data']) + len(h['metadata']) > 64:
+                burst_err = True
+    info['classes'] = ['producer_error_right_after_large_element=%s' % burst_err,
+                       'framing=' + ('message' if program['cfg']['msg'] else 'bytes'),
                        'interactions=%d' % len(tr.scn.started), 'multi_fragment=%s' % multi,
                        'read_split_inside_frame=%s' % split, 'overlap=%s' % ov, 'quiescent=%s' % tr.quiet,
                        'models=' + '+'.join(kinds)]
